@@ -7,7 +7,7 @@ package deque
 
 // VerifState returns len(d.a), d.front, d.back and d.gen.
 func (d *Deque[T]) VerifState() (capacity, front, back, gen int) {
-	return len(d.a), d.front, d.back, d.gen
+	return len(d.a), int(d.front), int(d.back), int(d.gen)
 }
 
 // VerifSlots returns a copy of the raw ring buffer (nil if it is not allocated).
